@@ -40,6 +40,89 @@ def run_property(prop, tier, program=None, quiet=False):
     return ctx, mod
 
 
+def thorough_extras(ctx, prop):
+    """Thorough tier: (1) sensitivity witnesses - every firing variant of the self-test corpus that
+    targets this property must flip the verdict to VIOLATION at the expected rule, every silent
+    (behaviour-preserving) variant must leave it untouched; (2) every confirmed seeded mutant that
+    this property's rules are recorded to catch is re-analysed on a patched scratch copy and must
+    still be caught; (3) path enumeration (loops taken 0/1/2 times) over the functions whose CFG the
+    rules of this property consult.  All of it analyses variants of the source; nothing is executed."""
+    import json as _json
+    import shutil
+    import subprocess
+    import tempfile
+
+    errors = []
+    # (1) self-test corpus
+    from selftest.run_selftest import run as run_selftest
+
+    results, dt = run_selftest([prop])
+    fire_ok = sum(1 for r in results if r[1] == "fire" and r[2] == "OK")
+    silent_ok = sum(1 for r in results if r[1] == "silent" and r[2] == "OK")
+    skipped = [r[0] for r in results if r[2] == "SKIPPED"]
+    for vid, kind, status, detail, _ in results:
+        if status == "FAILED":
+            errors.append(f"self-test variant {vid} ({kind}): {detail}")
+    ctx.extra["sensitivity_witnesses"] = {
+        "firing_variants_flipped": fire_ok,
+        "silent_variants_silent": silent_ok,
+        "skipped_edit_site_absent": skipped,
+        "wall_s": round(dt, 1),
+        "samples": [f"{r[0]} [{r[1]}]: {r[3]}" for r in results[:6]],
+    }
+    # (2) seeded mutants recorded as caught by this property
+    seeded_dir = os.path.join(report.VERIF, "seeded")
+    replayed, lost = [], []
+    try:
+        matrix = _json.load(open(os.path.join(seeded_dir, "RESULTS.json")))
+    except Exception:
+        matrix = {}
+    for name, rec in sorted(matrix.items()):
+        mine = [f for f in rec.get("fired", []) if f.startswith(prop + ".")]
+        if not mine:
+            continue
+        patch = os.path.join(seeded_dir, name, "patch.diff")
+        tmp = tempfile.mkdtemp(prefix="verif-thorough-")
+        try:
+            shutil.copytree(os.path.join(repo_path(), "fastavro"), os.path.join(tmp, "fastavro"), ignore=shutil.ignore_patterns("__pycache__", "*.pyx", "*.so"))
+            r = subprocess.run(["patch", "-p1", "-s", "-i", patch], cwd=tmp, capture_output=True, text=True)
+            if r.returncode != 0:
+                ctx.note(prop + ".seeded", f"seeded mutant {name} no longer applies to the tree (skipped)")
+                continue
+            vctx, _ = run_property(prop, "quick", Program.from_dir(tmp))
+            rules_now = sorted({o["rule"] for o in vctx.violations()})
+            if rules_now:
+                replayed.append(f"{name}: {rules_now}")
+            else:
+                lost.append(name)
+        finally:
+            shutil.rmtree(tmp, ignore_errors=True)
+    for name in lost:
+        errors.append(f"seeded mutant {name} was recorded as caught by {prop} but is no longer reported")
+    ctx.extra["seeded_mutants_replayed"] = replayed
+    # (3) path enumeration over the functions whose statements the obligations point at
+    from .cfg import cfg_of
+
+    funcs = {}
+    for o in ctx.obligations:
+        w = o["where"].split(":")
+        if len(w) >= 2 and w[0].endswith(".py"):
+            short = w[0][len("fastavro/"):-3].replace("/", ".")
+            f = ctx.program.maybe_func(f"{short}:{w[1]}")
+            if f is not None:
+                funcs[f.id] = f
+    stats = {}
+    total = 0
+    for fid, f in sorted(funcs.items())[:60]:
+        cfg = cfg_of(f)
+        n_exit = len(cfg.paths(cfg.entry, cfg.exit, max_paths=5000))
+        n_raise = len(cfg.paths(cfg.entry, cfg.raise_exit, max_paths=5000))
+        stats[fid] = {"nodes": len(cfg.nodes), "paths_to_return": n_exit, "paths_to_raise": n_raise}
+        total += n_exit + n_raise
+    ctx.extra["paths_enumerated"] = {"functions": len(stats), "paths": total, "loop_bound": 2, "per_function": stats}
+    return errors
+
+
 def main(argv=None):
     ap = argparse.ArgumentParser()
     ap.add_argument("prop")
@@ -54,6 +137,9 @@ def main(argv=None):
         seed = 0
     try:
         ctx, mod = run_property(prop, args.tier)
+        if args.tier == "thorough" and not args.replay:
+            for e in thorough_extras(ctx, prop):
+                ctx.unrecognised(prop + ".selftest", "thorough tier self-test", "", e)
         if hasattr(mod, "builtin_examples"):
             ctx.builtin = True
             try:
